@@ -157,6 +157,7 @@ def rule_control(ck):
 
 
 def run(ck):
+    ck.run_rule("G0", "every module of the package imports without raising", 12, escape.rule_G0)
     ck.run_rule("G2", "explicit raise/assert sites are discharged (reported first, contained, or in the reasoned table)", 80, escape.rule_G2)
     ck.run_rule("G2.cycle", "DeferredCycle is caught and reported where values are awaited", 2, escape.rule_cycle)
     ck.run_rule("G2.typearg", "type arguments of deferred constructors are classes (D1t)", 30, escape.rule_typearg)
